@@ -195,6 +195,11 @@ int ChainSim::MineOn(int parent, int ntx, uint64_t txseed, int defect, int bound
     BlockLabel label;
     BlockExtras ex;
     ex.cb_extranonce = (uint32_t)(++cb_nonce);
+    if (coinbase_pad_max > 0) {
+        // bulk up the block with an unspendable coinbase output so that block files roll over (prune / flat-file engines)
+        size_t n = (size_t)r.range(coinbase_pad_min, coinbase_pad_max);
+        ex.extra_coinbase_outputs.emplace_back(0, CScript() << OP_RETURN << std::vector<unsigned char>(n, (unsigned char)(cb_nonce & 0xff)));
+    }
     ex.coinbase_spk = kr.Spk((SK)r.below((int)SK::NKINDS), (int)r.below(N_KEYS));
     std::vector<CTransactionRef> txs;
     CAmount fees = 0;
